@@ -1,4 +1,5 @@
 import TIV.C02.Proofs
+import TIV.C02.Model
 /-!
 # C02 — block renders show exactly the image's pixels.
 
@@ -174,6 +175,17 @@ theorem render_shows (cfg : Cfg) (rows : List (List PP)) (w h : Nat) (hh : rows.
     (List.getElem?_eq_getElem hi) j rows[i][j] (List.getElem?_eq_getElem hj)
   obtain ⟨c, hc1, hc2⟩ := this
   exact ⟨c, by simpa [Block.render] using hc1, hc2⟩
+
+/-- thresholded transparency is bi-level: an alpha value becomes 0 exactly when it is below the
+    threshold, 255 otherwise — so after rounding "alpha = 0" is "pixel below the threshold" -/
+theorem threshold_class (thr : Nat) (a : List Nat) :
+    (roundAlpha thr a).length = a.length ∧
+    ∀ i (hi : i < a.length), ((roundAlpha thr a)[i]'(by simp [roundAlpha]; exact hi) = 0 ↔ a[i] < thr) ∧
+      ((roundAlpha thr a)[i]'(by simp [roundAlpha]; exact hi) = 255 ↔ ¬ a[i] < thr) := by
+  refine ⟨by simp [roundAlpha], ?_⟩
+  intro i hi
+  simp only [roundAlpha, List.getElem_map]
+  by_cases h : a[i] < thr <;> simp [h]
 
 /-- non-vacuity: a 2×1 image with a transparent upper-left pixel -/
 example : (cellsOf ⟨none, none⟩ (line ⟨true, false, none, false⟩
